@@ -3,7 +3,15 @@
 use crate::log::Log;
 use crate::prng::Rng;
 
+pub mod blockapi;
 pub mod c01;
+pub mod hashdiff;
+pub mod hashhist;
+pub mod hist;
+pub mod jhf8;
+pub mod null;
+pub mod ppv;
+pub mod tf;
 
 pub struct Ctx {
     pub prop: String,
@@ -61,6 +69,13 @@ pub fn first_diff(a: &[u8], b: &[u8]) -> Option<usize> {
 pub fn run(cx: &mut Ctx) {
     match cx.prop.as_str() {
         "C01" => c01::run(cx),
+        "C02" | "C11" => hist::run(cx),
+        "C04" | "C05" | "C06" | "C07" => hashdiff::run(cx),
+        "C08" => hashhist::run(cx),
+        "C09" | "C10" => tf::run(cx),
+        "C12" | "C13" => ppv::run(cx),
+        "C14" | "C15" => blockapi::run(cx),
+        "C19" => null::run(cx),
         p => {
             eprintln!("unknown property {}", p);
             std::process::exit(2);
@@ -71,6 +86,13 @@ pub fn run(cx: &mut Ctx) {
 pub fn replay(cx: &mut Ctx, desc: &str) {
     match cx.prop.as_str() {
         "C01" => c01::replay(cx, desc),
+        "C02" | "C11" => hist::replay(cx, desc),
+        "C04" | "C05" | "C06" | "C07" => hashdiff::replay(cx, desc),
+        "C08" => hashhist::replay(cx, desc),
+        "C09" | "C10" => tf::replay(cx, desc),
+        "C12" | "C13" => ppv::replay(cx, desc),
+        "C14" | "C15" => blockapi::replay(cx, desc),
+        "C19" => null::replay(cx, desc),
         p => {
             eprintln!("unknown property {}", p);
             std::process::exit(2);
